@@ -115,6 +115,10 @@ type RangeIter struct {
 	CurG   *Term
 	Done   bool
 	SkipOK bool
+	// rev: visit the entries present when the range started in reverse list order (cfg maporder=1);
+	// entries appended during the iteration follow in list order
+	rev  bool
+	snap []int // per alternative: number of entries at Range time
 }
 
 func sameTarget(a, b PtrAlt) bool {
